@@ -5,6 +5,15 @@ V = os.path.dirname(os.path.dirname(os.path.abspath(__file__)))
 TECH = "bounded symbolic execution of the real Rust code (Kani 0.68 -> CBMC 6.11, CaDiCaL); solver verdict per harness, counterexamples replayed natively"
 CLAIMS = {
  # id: (level text, level note, design ref)
+ "C06": ("Bounded model checking of the link codec: table CRC step == bit-serial CRC-16/DNP for all 2^24 (acc,byte) pairs, GF(2)-linearity, header accept <=> length>=5 and reference CRC with fields decoded as transmitted, Hamming distance >= 4 of header and body blocks via syndromes built by the real CRC code, body de-framing for payload lengths 1..250 and format->parse round trips for 0..249 application bytes (checksum abstracted there), sync-search automaton and step atomicity in discard/close mode.",
+         "Induction over bytes (CRC) and over calls (chunk independence) are arguments, the steps are solver results. CRC abstracted by a cheap checksum inside the framing loops. Reader::read_frame (async), datagram-mode reset and resynchronisation inside an already-consumed header (state ReadBody) are outside the claim.",
+         "DESIGN.md §5 C06"),
+ "C07": ("Bounded model checking of link addressing: process_header for all 2^41 (control, destination, source) x roles x self-address x local address x secondary states incl. a retransmitted frame; broadcast FIR+FIN rule of the assembler; the foreign-master/broadcast filter of pop_request over every parse outcome.",
+         "Decides the synchronous filters only: that no async path writes a response for a broadcast or foreign fragment in confirm-wait states is outside the claim.",
+         "DESIGN.md §5 C07"),
+ "C08": ("Bounded model checking of transport reassembly as a one-step inductive specification (any state, any buffer content, any segment) plus a 3-segment fault-injection cross-check and real-size length arithmetic; link framing round trip for every segment length shared with C06.",
+         "Capacity 8 stands for 249..2048 in the content-tracking step (size-agnostic code; real sizes in c08_assembler_lengths). Writer::write is async: its chunk arithmetic is checked on the extracted expressions. Induction over segments is an argument.",
+         "DESIGN.md §5 C08"),
  "C04": ("Bounded model checking of the SELECT/OPERATE matching predicate and select-state bookkeeping over all sequence numbers, frame ids, hashes, clock readings and timeouts 1 ms..1 h; the solver decides, nothing is sampled.",
          "Decides match_operate/update_frame_id and the synchronous control-collection helpers; that the session records a select only after an all-success SELECT and actuates exactly once lives in async code and is outside the claim. Clock stubbed by an arbitrary instant.",
          "DESIGN.md §5 C04"),
